@@ -206,9 +206,20 @@ Drift(o) ==
   ELSE IF e.a = "Get" /\ e.res = "hit" /\ (loc["c1"].c # e.c \/ loc["c1"].off # e.off) THEN {<<sid, e.n, "get-pos">>}
   ELSE {}
 
+\* cheap scalar state logged with every state-changing operation (head file, per-file size and number of buffered
+\* records, next-GC mark) against the specification's state after the same operation
+StateDrift(o) ==
+  LET e == o.e IN
+  IF e.a \in {"Set", "Incr", "Flush", "RotFlush", "Open", "GC"} /\ e.st.head >= 0 /\ up /\ pc["gc"] = "idle" /\ (e.a = "GC" => ~e.second)
+    THEN (IF head # e.st.head THEN {<<sid, e.n, "state-head">>} ELSE {})
+         \cup {<<sid, e.n, "state-size">> : i \in {i \in 1..Len(e.st.size) : (i - 1) \in Chunks /\ chk[i - 1].size # e.st.size[i]}}
+         \cup {<<sid, e.n, "state-wbuf">> : i \in {i \in 1..Len(e.st.nbuf) : (i - 1) \in Chunks /\ Len(chk[i - 1].wbuf) # e.st.nbuf[i]}}
+         \cup (IF e.st.nextgc >= 0 /\ bk.nextgc # e.st.nextgc THEN {<<sid, e.n, "state-nextgc">>} ELSE {})
+    ELSE {}
+
 Settle == /\ bad' = bad \cup Checks(obs)
           /\ lead' = lead \cup StateChecks(obs)
-          /\ drift' = drift \cup Drift(obs)
+          /\ drift' = drift \cup Drift(obs) \cup StateDrift(obs)
 
 -----------------------------------------------------------------------------
 \* InitMem is stated over unprimed variables; this is its primed twin
